@@ -10,10 +10,20 @@ prop("C17", "exploration",
      "every receiver and the drain see increasing ids; a Recv that started after an item had been queued never reports "
      "end-of-stream while that item is still queued; errors are end-of-stream, timeout (errors.Is os.ErrDeadlineExceeded) or the "
      "Cancel error; no goroutine is left; also run under the race detector. Non-trivial = >=3 goroutines with at least one "
-     "SetDeadline/Cancel/Close racing; distinct by case hash.",
+     "SetDeadline/Cancel/Close racing; distinct by case hash. Transport half: programs of 2-6 goroutines x 1-5 operations over a "
+     "real Client (Handshake, Read, ReadMsg, Write, WriteMsg, SetDeadline, SetReadDeadline, Close), the accepted Handle (same minus "
+     "Handshake) and the Server (AcceptTimeout, Close) on vlib/simnet against an honest, a silent or a vanishing peer, both handshake "
+     "modes, HSTimeout / HSDeadline set or not, with a yield schedule at the verif-tagged points in Client.Close/Handshake, "
+     "Server.Close/Serve, Handle.send and DeadlineChan.Recv. Oracle: with a handshake timeout or deadline a handshake against a peer "
+     "that does not answer has returned after 15 virtual s; three concurrent Close calls per object return within 30 s with equal "
+     "results; 30 s after client, handle and server were closed no call is blocked; read errors are end-of-stream or timeout errors; "
+     "no goroutine is left; one case in ten is the drain scenario (k messages delivered into the receive queue, then Close: ReadMsg "
+     "returns all k, then end-of-stream); also under the race detector.",
      ["between two instrumented points the Go scheduler decides the interleaving", "bounds are virtual (synctest)"],
      [dict(name="queue", pkg="common", run="^TestVerifC17Queue$", shards=dict(quick=16, thorough=16), thorough_scale=100, timeout=dict(quick=900, thorough=7200)),
-      dict(name="queue-race", pkg="common", race=True, run="^TestVerifC17Queue$", shards=dict(quick=16, thorough=16), thorough_scale=30, timeout=dict(quick=900, thorough=7200))],
+      dict(name="queue-race", pkg="common", race=True, run="^TestVerifC17Queue$", shards=dict(quick=16, thorough=16), thorough_scale=30, timeout=dict(quick=900, thorough=7200)),
+      dict(name="transport", pkg="transport", run="^TestVerifC17Transport$", shards=dict(quick=16, thorough=16), thorough_scale=50, timeout=dict(quick=900, thorough=7200)),
+      dict(name="transport-race", pkg="transport", race=True, run="^TestVerifC17Transport$", shards=dict(quick=16, thorough=16), thorough_scale=10, timeout=dict(quick=900, thorough=7200))],
      text="Generated concurrent programs over the deadline queue and over transport clients, handles and servers run under a virtual "
           "clock with schedule perturbation at instrumented points and under the race detector; termination of every call, "
           "idempotent close, exactly-once in-order delivery and drain-before-end-of-stream are checked from the recorded history.",
